@@ -14,7 +14,7 @@ RULE = ("NetSpecs from everything create_network accepts (full lattice + exact a
         "non-trivial when it combines >= 2 optional features and executes >= 30 events; distinct by spec digest.")
 ASSUMPTIONS = ["a valid input is one built by the generator from documented parameter forms (DESIGN 2.1)",
                "event budget per case; a run that hits it is inconclusive for the return-time clauses"]
-TECHNIQUE = 'property-based testing over everything create_network accepts (exception = violation), horizon / count monitor with counts recomputed from ground truth, exact-mode decimal horizons; coverage-guided fuzzing (atheris)'
+TECHNIQUE = 'property-based testing over everything create_network accepts (exception = violation): horizon / count monitor with counts recomputed from ground truth, events owed to customers derived from the customers themselves, mixed call plans (both stopping methods on one Simulation), exact-mode decimal horizons; coverage-guided fuzzing (atheris)'
 WALL = {"quick": 150, "thorough": 540}
 
 
